@@ -173,6 +173,16 @@ def rt_undirected(H, spec):
             a["incidences(both sides)"] = {(t[0], str(t[1])) if t[0] != "NODE-SIDE-DISAGREES" else t for t in a["incidences(both sides)"]}
             if a != b:
                 bad("hypergraph-dict", f"standard dict round trip (string edge IDs): {_fd(a, b)}")
+        # one type per column, two different types: each column read back with its own explicit cast (an edge ID may be
+        # spelt like a node label)
+        plain = lambda t: (lambda x: type(x) is t)  # noqa: E731
+        for nt, et in ((int, str), (str, int), (float, str), (str, float), (int, float)):
+            if H.num_nodes and H.num_edges and all(map(plain(nt), H.nodes)) and all(map(plain(et), H.edges)):
+                H2 = xgi.from_hypergraph_dict(xgi.to_hypergraph_dict(H), nodetype=nt, edgetype=et)
+                a, b = full(H), full(H2)
+                if a != b or [type(x) for x in H2.edges] != [et] * H2.num_edges or [type(x) for x in H2.nodes] != [nt] * H2.num_nodes:
+                    bad("hypergraph-dict", f"standard dict round trip with nodetype={nt.__name__}, edgetype={et.__name__}: "
+                        f"{_fd(a, b) or [type(x).__name__ for x in H2.edges]}")
 
     # 8 HIF dict
     def _b8():
@@ -378,6 +388,10 @@ def family(tier):
         items.append(("H", F.relabel(s, edge_ids=[np.int64(m - i) for i in range(m)])))
     for w in F.wide():  # more than ten nodes and edges
         items.append(("H", w))
+    # node labels and edge IDs of two different types whose text coincides
+    items += [("H", F.H([[1, 2], [2, 3], [1, 3]], ids=["1", "2", "7"])), ("H", F.H([["1", "2"], ["2", "x"]], ids=[1, 2])),
+              ("H", F.H([[0, 1, 2], [2, 3]], ids=["0", "3"], nodes=[0, 1, 2, 3])), ("H", F.H([[1.5, 2.0], [2.0, 3.0]], ids=["1.5", "2.0"])),
+              ("H", F.H([["1.0", "2"], ["2", "7"]], ids=[1.0, 2.0]))]
     for s in F.directed([1, 2, 3], 2 if q else 2, isolated=not q):
         items.append(("D", s))
         if len(s["edges"]) == 2:
